@@ -1,6 +1,7 @@
 /-
 Footnote conservation, box level: what `block_level_layout` does to the footnote state
-(`layoutBoxF` / `layoutKidsF`), for documents without `footnote-policy: block`.
+(`layoutBoxF` / `layoutKidsF`), for every `footnote-policy` (since repair 67bf2ca `footnote-policy: block` cancels a
+paragraph only when something is before it on the page, and `block_container_layout` then un-lays-out all its calls).
 -/
 import WpModel.Lemmas.FootConservePara
 
@@ -11,11 +12,11 @@ open Wp Wp.PM
 
 mutual
 /-- Everything the conservation proof needs of a source subtree, in one recursion: no fixed height and
-`orphans, widows ≥ 1` (stage-1 `Good`), no `footnote-policy: block`, every call on an existing line, and the
+`orphans, widows ≥ 1` (stage-1 `Good`), every call on an existing line, and the
 call table `tbl` of the layout context answers, for the lines of each paragraph, with that paragraph's calls. -/
 def FootOk (tbl : List (Nat × Nat × Fn)) : FootBox → Prop
   | .para id n _ st calls => st.height = none ∧ 1 ≤ st.orphans ∧ 1 ≤ st.widows ∧
-      (∀ c ∈ calls, c.policy ≠ .block ∧ c.line < n) ∧ (∀ i, tblFns tbl [(id, i)] = lineFns st calls i)
+      (∀ c ∈ calls, c.line < n) ∧ (∀ i, tblFns tbl [(id, i)] = lineFns st calls i)
   | .block _ st kids => st.height = none ∧ FootOkList tbl kids
 def FootOkList (tbl : List (Nat × Nat × Fn)) : List FootBox → Prop
   | [] => True
@@ -82,9 +83,9 @@ theorem breakLine_no_abort' (st : PStyle) (n i : Nat) (lines : List (Nat × Rat)
   unfold breakLine
   simp
 
-/-- On an empty page, without `footnote-policy: block`, the line loop never aborts the paragraph. -/
+/-- On an empty page the line loop never aborts the paragraph, whatever the footnote policies. -/
 theorem lineLoopF_no_abort (c : FCtx) (st : PStyle) (calls : List Call) (b : BoxSt) (n : Nat) (lineH bs : Rat)
-    (fuel i : Nat) (y : Rat) (s : LineLoop) (fs : FState) (hnb : ∀ c ∈ calls, c.policy ≠ .block) :
+    (fuel i : Nat) (y : Rat) (s : LineLoop) (fs : FState) :
     ∀ a stp r s', (lineLoopF c st calls b n lineH true bs fuel i y s fs).1 = .broke a stp r s' → a = false := by
   fun_induction lineLoopF c st calls b n lineH true bs fuel i y s fs with
   | case1 => intro a stp r s' h; cases h
@@ -102,14 +103,12 @@ theorem lineLoopF_no_abort (c : FCtx) (st : PStyle) (calls : List Call) (b : Box
     simp only [LineOutcome.broke.injEq] at h
     rw [← h.1]; exact this
   | case5 fuel i y s fs resume newPosY dbd offset overflow hov shift newPosY' mt' fs' hfl =>
-    have := footLoop_no_abort c (!s.lines.isEmpty || !true) bs (newPosY' + offset) (lineFns st calls i) fs
-      (lineFns_policy st calls i hnb)
+    have := footLoop_no_abort_pie c (!s.lines.isEmpty || !true) bs (newPosY' + offset) (lineFns st calls i) fs
     rw [hfl] at this
     exact absurd rfl this
 
 theorem lineboxF_no_abort (c : FCtx) (st : PStyle) (calls : List Call) (b : BoxSt) (n : Nat) (lineH : Rat)
-    (adj : List Rat) (bs posY : Rat) (skip : Option Resume) (dbd : Bool) (fs : FState)
-    (hnb : ∀ c ∈ calls, c.policy ≠ .block) :
+    (adj : List Rat) (bs posY : Rat) (skip : Option Resume) (dbd : Bool) (fs : FState) :
     (lineboxLayoutF c st calls b n lineH true adj bs posY skip dbd fs).1.abort = false := by
   unfold lineboxLayoutF
   dsimp only
@@ -118,7 +117,10 @@ theorem lineboxF_no_abort (c : FCtx) (st : PStyle) (calls : List Call) (b : BoxS
   | broke a st' r s =>
     simp only [lineResultOf]
     unfold lineboxLoopF at hl
-    exact lineLoopF_no_abort c st calls b n lineH bs _ _ _ _ fs hnb a st' r s hl
+    exact lineLoopF_no_abort c st calls b n lineH bs _ _ _ _ fs a st' r s hl
+
+theorem lineResultOf_abort (n : Nat) (o : LineOutcome) : (lineResultOf n o).abort = outAbort o := by
+  cases o <;> rfl
 
 theorem lineResultOf_lines (n : Nat) (o : LineOutcome) : (lineResultOf n o).lines = outLines o := by
   cases o <;> rfl
@@ -176,14 +178,13 @@ theorem paraF_state (id n : Nat) (lineH : Rat) (st : PStyle) (calls : List Call)
       (layoutBoxF c (.para id n lineH st calls) idx y bs skip cb pie adjL fs).fs := by
   simp only [FootOk] at hok
   obtain ⟨hh, ho, hw, hcalls, htbl⟩ := hok
-  have hnb : ∀ cl ∈ calls, cl.policy ≠ .block := fun cl h => (hcalls cl h).1
   simp only [layoutBoxF]
   generalize hp : prepare (ctxOf c fs) st y bs skip cb pie adjL = p
   -- the line loop
   have hloop := lineLoopF_state c st calls p.b n lineH pie p.bs (paraStart skip) (n - paraStart skip)
     (paraStart skip) (lineStart p.cur p.posY)
     { lines := [], posY := lineStart p.cur p.posY, skip := subSkipOf skip, mt := p.b.mt, dbd := p.dbd } fs
-    (act fs) fs.pending (Nat.le_refl _) (by simp) rfl hnb hND hP (fun g hg => hst.disj g hg) hst
+    (act fs) fs.pending (Nat.le_refl _) (by simp) rfl hND hP (fun g hg => hst.disj g hg) hst
     (by simp [idxFns]) (fun g hg => Or.inl hg)
   have hlr : lineboxLayoutF c st calls p.b n lineH pie p.cur p.bs p.posY (subSkipOf skip) p.dbd fs =
       (lineResultOf n (lineLoopF c st calls p.b n lineH pie p.bs (n - paraStart skip) (paraStart skip)
@@ -198,7 +199,7 @@ theorem paraF_state (id n : Nat) (lineH : Rat) (st : PStyle) (calls : List Call)
       = false := by
     intro hpie
     subst hpie
-    have := lineboxF_no_abort c st calls p.b n lineH p.cur p.bs p.posY (subSkipOf skip) p.dbd fs hnb
+    have := lineboxF_no_abort c st calls p.b n lineH p.cur p.bs p.posY (subSkipOf skip) p.dbd fs
     rw [hlr] at this
     exact this
   rw [hlr]
@@ -206,15 +207,16 @@ theorem paraF_state (id n : Nat) (lineH : Rat) (st : PStyle) (calls : List Call)
     (lineStart p.cur p.posY)
     { lines := [], posY := lineStart p.cur p.posY, skip := subSkipOf skip, mt := p.b.mt, dbd := p.dbd } fs = o
     at hloop hnoab
-  obtain ⟨hs1, ha1, hj1⟩ := hloop
+  obtain ⟨X, hs1, ha1, hj1, hX, hX0⟩ := hloop
   dsimp only
   generalize hr : lineResultOf n o.1 = r
   have hlines : r.lines = outLines o.1 := by rw [← hr]; exact lineResultOf_lines n o.1
+  have habort : r.abort = outAbort o.1 := by rw [← hr]; exact lineResultOf_abort n o.1
   rw [← hlines] at ha1 hj1
   obtain ⟨hc1, hc2⟩ := finishPara_cases (ctxOf c o.2) st p pie id idx n r
   -- un-laying-out every call of the paragraph restores the entry state, when the paragraph is new here
   have hall : pie = false → ∀ G : List Fn, (∀ g ∈ G, g ∈ calls.map (mkFn st)) →
-      (∀ g ∈ lineFnsList st calls r.lines, g ∈ G) →
+      (∀ g ∈ lineFnsList st calls r.lines ++ X, g ∈ G) →
       StatePost c fs none (unlayAll c o.2 G) := by
     intro hpie G hG1 hG2
     have hsk : skip = none := by
@@ -228,7 +230,7 @@ theorem paraF_state (id n : Nat) (lineH : Rat) (st : PStyle) (calls : List Call)
     obtain ⟨u1, u2, u3⟩ := unlayAll_spec c G o.2 hs1
     refine ⟨u1, ?_, ?_⟩
     · simp only [fragFns, List.append_nil]
-      rw [u2, ha1]
+      rw [u2, ha1, List.append_assoc]
       apply filter_cut _ _ _ _ hG2
       intro g hg hgG
       have := hG1 g hgG
@@ -237,14 +239,15 @@ theorem paraF_state (id n : Nat) (lineH : Rat) (st : PStyle) (calls : List Call)
       have hm := callFn_mem_lineFns st calls cl hcl
       have : mkFn st cl ∈ idxFns st calls (List.range' 0 n) := by
         rw [idxFns_mem]
-        exact ⟨cl.line, by simp [List.mem_range']; exact (hcalls cl hcl).2, hm⟩
+        exact ⟨cl.line, by simp [List.mem_range']; exact hcalls cl hcl, hm⟩
       exact hst.disj _ hg (hP _ this)
     · intro g hg
       left
       rw [u3 g]
-      rcases hj1 g hg with h | h
+      rcases hj1 g hg with h | h | h
       · exact Or.inl h
-      · exact Or.inr (hG2 g h)
+      · exact Or.inr (hG2 g (by simp [h]))
+      · exact Or.inr (hG2 g (by simp [h]))
   unfold finishParaF
   dsimp only
   by_cases hab : r.abort = true
@@ -256,12 +259,30 @@ theorem paraF_state (id n : Nat) (lineH : Rat) (st : PStyle) (calls : List Call)
         have := hnoab rfl
         rw [hr] at this
         rw [this] at hab; cases hab
-    have := hall hpie (calls.map (mkFn st)) (fun g h => h)
-      (fun g hg => by rw [lineFnsList_eq] at hg; exact idxFns_sub_calls st calls _ g hg)
+    have := hall hpie (lineFnsList st calls r.lines ++ calls.map (mkFn st))
+      (fun g hg => by
+        simp only [List.mem_append] at hg
+        rcases hg with h | h
+        · rw [lineFnsList_eq] at h; exact idxFns_sub_calls st calls _ g h
+        · exact h)
+      (fun g hg => by
+        simp only [List.mem_append] at hg ⊢
+        rcases hg with h | h
+        · exact Or.inl h
+        · exact Or.inr (hX g h))
     rw [hc1 hab]
     exact this
   · rw [if_neg hab]
     have hab' : r.abort = false := by simpa using hab
+    have hXnil : X = [] := hX0 (by rw [← habort]; exact hab')
+    subst hXnil
+    simp only [List.append_nil] at ha1 hall
+    have hj1' : ∀ g ∈ fs.pending, g ∈ o.2.pending ∨ g ∈ lineFnsList st calls r.lines := by
+      intro g hg
+      rcases hj1 g hg with h | h | h
+      · exact Or.inl h
+      · exact Or.inr h
+      · simp at h
     obtain ⟨hd1, hd2⟩ := hc2 hab'
     by_cases hdr : dropped st pie (if r.stop then forgetIfFixed st { p.b with mt := r.mt } r.posY r.resume else none) = true
     · rw [if_pos hdr, hd1 hdr]
@@ -282,6 +303,6 @@ theorem paraF_state (id n : Nat) (lineH : Rat) (st : PStyle) (calls : List Call)
       have hff : fragFns c (some (Frag.para id idx st n geo r.lines)) = lineFnsList st calls r.lines := by
         simp only [fragFns, flines]
         exact tblFns_paraLines c.tbl id st calls htbl r.lines
-      exact ⟨hs1, by rw [hff]; exact ha1, by rw [hff]; exact hj1⟩
+      exact ⟨hs1, by rw [hff]; exact ha1, by rw [hff]; exact hj1'⟩
 
 end Wp.PMF
